@@ -681,6 +681,8 @@ def m_vec_macro(ex, st, callee, A):
             return Agg('struct', '~vec', None, list(arr.fields))
         except (KeyError, AttributeError, IndexError) as e:
             raise NotEncoded(f'vec! buffer shape: {e}')
+    if re.search(r'^(?:std::vec::|alloc::vec::)?Vec::<.*>::with_capacity$', callee):
+        return Agg('struct', '~vec', None, [])
     if re.search(r'^(?:std::vec::|alloc::vec::)?Vec::<.*>::new$', callee):
         return Agg('struct', '~vec', None, [])
     def deref_(v):
@@ -1047,7 +1049,7 @@ def m_ref_eq(ex, st, callee, A):
 
 def install(ex):
     for rx, fn in [
-        (r'new_uninit$|box_assume_init_into_vec_unsafe::<|Vec::<.*>::(new|push|pop)$|Vec<.*> as Deref(Mut)?>::deref(_mut)?$| as IntoIterator>::into_iter$| as Iterator>::(next$|filter::<)|slice::<impl \[.*\]>::iter$|BTreeMap::<.*>::iter$', m_vec_macro),
+        (r'new_uninit$|box_assume_init_into_vec_unsafe::<|Vec::<.*>::(new|with_capacity|push|pop)$|Vec<.*> as Deref(Mut)?>::deref(_mut)?$| as IntoIterator>::into_iter$| as Iterator>::(next$|filter::<)|slice::<impl \[.*\]>::iter$|BTreeMap::<.*>::iter$', m_vec_macro),
         (r' as Iterator>::(any|all|try_for_each|for_each|filter_map|count|zip|collect|map|rev|fold)(::<.*>)?$|(HashMap|BTreeMap)::<.*>::(contains_key|get|iter|values|keys|is_empty|len)(::<.*>)?$|(HashMap|BTreeMap)<.*> as IntoIterator>::into_iter$', m_iter_hof),
         (r'<impl [iu](8|16|32|64|128|size)>::\w+$', m_int),
         (r'(PartialOrd|PartialEq|Ord)(<[^>]*>)?( for \w+)?>::\w+$', m_int_cmp),
